@@ -66,7 +66,7 @@ class TLCResult:
 
 
 def _tlc_cmd(module, cfg, workers, extra, jvm):
-    cmd = ['java', '-XX:+UseParallelGC'] + list(jvm) + ['-cp', JAR_CP, 'tlc2.TLC']
+    cmd = ['java', '-XX:+UseParallelGC', '-Xss64m'] + list(jvm) + ['-cp', JAR_CP, 'tlc2.TLC']
     cmd += ['-workers', str(workers), '-noGenerateSpecTE', '-config', cfg]
     cmd += list(extra) + [module]
     return cmd
